@@ -46,7 +46,28 @@ func root() string {
 	return "/verif"
 }
 
-// Start launches the helper with the given interpreter.
+// StartScript launches pyhelpers/<script> (a JSON-lines server) with the given interpreter.
+func StartScript(python, script string) (*Server, error) {
+	cmd := exec.Command(python, "-u", filepath.Join(root(), "pyhelpers", script))
+	cmd.Stderr = os.Stderr
+	stdin, err := cmd.StdinPipe()
+	if err != nil {
+		return nil, err
+	}
+	stdout, err := cmd.StdoutPipe()
+	if err != nil {
+		return nil, err
+	}
+	if err := cmd.Start(); err != nil {
+		return nil, err
+	}
+	return &Server{cmd: cmd, in: bufio.NewWriter(stdin), out: bufio.NewReaderSize(stdout, 1<<20)}, nil
+}
+
+// Call sends one request object and decodes the one-line JSON answer.
+func (s *Server) Call(req interface{}, resp interface{}) error { return s.call(req, resp) }
+
+// Start launches the pickle helper with the given interpreter.
 func Start(python string) (*Server, error) {
 	cmd := exec.Command(python, "-u", filepath.Join(root(), "pyhelpers", "pickle_server.py"))
 	cmd.Stderr = os.Stderr
